@@ -389,3 +389,117 @@ Proof.
 Qed.
 
 End SimC12.
+
+(* ---- the theorems ------------------------------------------------------------------------------------ *)
+Lemma F2_fold_mono cs evs : forall o, F2 (fold_left (obs_step cs) evs o) = false -> F2 o = false.
+Proof.
+  induction evs as [|[th e] evs IH]; intros o Hf; cbn in Hf; [exact Hf|].
+  apply IH in Hf. now destruct (F2_step cs o th e Hf).
+Qed.
+
+Lemma sim_w cs : forall evs s o g s', R cs s o g -> accept s evs = Some s' ->
+  run3 side_ok cs o g evs = true -> F2 (fold_left (obs_step cs) evs o) = false ->
+  run3 (mon_w true cs) cs o g evs = true.
+Proof.
+  induction evs as [|[th e] evs IH]; intros s o g s' HR Hacc Hside HF; [reflexivity|].
+  cbn in Hacc, Hside, HF |- *. destruct (step s (th, e)) as [s1|] eqn:Es; [|discriminate].
+  apply andb_true_iff in Hside. destruct Hside as [Hs1 Hs2].
+  destruct (R_step cs s o g th e s1 HR Es Hs1) as [HR1 Hm].
+  pose proof (F2_fold_mono cs evs _ HF) as HF1. destruct (F2_step cs o th e HF1) as [HF0 _].
+  destruct Hm as [Hm|Hm]; [|congruence]. rewrite Hm. cbn. eapply IH; eauto.
+Qed.
+
+Lemma run_w_false cs : forall evs o g, run3 (mon_w false cs) cs o g evs = true.
+Proof.
+  induction evs as [|[th e] evs IH]; intros o g; [reflexivity|]. cbn. rewrite IH, andb_true_r.
+  unfold mon_w. cbn. destruct e; try reflexivity. destruct (is_worker g th i); reflexivity.
+Qed.
+
+Theorem C12_workers_thm : forall cs ord evs s,
+  accept (init cs ord) evs = Some s -> W_C12 (final_obs cs evs) = false -> c12_side cs evs = true ->
+  holds_C12w ord cs evs = true.
+Proof.
+  intros cs ord evs s Hacc HW Hside. unfold holds_C12w. destruct ord; [|apply run_w_false].
+  eapply sim_w; eauto. apply R_init.
+Qed.
+
+Lemma existsb_false_forallb {A} (f : A -> bool) (X : A -> bool) l :
+  existsb f l = false -> forallb (fun a => if f a then X a else true) l = true.
+Proof.
+  induction l as [|a l IH]; cbn; [reflexivity|]. intros H. apply orb_false_iff in H. destruct H as [H1 H2].
+  rewrite H1. cbn. auto.
+Qed.
+
+Lemma mon_split ord cs o g e : mon_w ord cs o g e = true -> foreign_ok o g e = true -> mon_C12 ord cs o e = true.
+Proof.
+  destruct e as [th e]. unfold mon_w, foreign_ok. cbn [fst snd]. destruct e; try reflexivity.
+  destruct (is_worker g th i); [auto|]. cbn. intros _ Hf. apply negb_true_iff in Hf.
+  unfold mon_C12. cbn [snd]. destruct (negb ord); [reflexivity|].
+  now apply (existsb_false_forallb (fun snap => memN i (snd snap))).
+Qed.
+
+Lemma combine ord cs : forall evs o g k, run3 (mon_w ord cs) cs o g evs = true -> run3 foreign_ok cs o g evs = true ->
+  mon_run cs (mon_C12 ord cs) o evs k = None.
+Proof.
+  induction evs as [|e evs IH]; intros o g k H1 H2; [reflexivity|]. cbn in *.
+  apply andb_true_iff in H1. apply andb_true_iff in H2. destruct H1 as [A1 B1]. destruct H2 as [A2 B2].
+  rewrite (mon_split ord cs o g e A1 A2). eapply IH; eauto.
+Qed.
+
+Theorem C12_main_partial_thm : forall cs ord evs s,
+  accept (init cs ord) evs = Some s -> W_C12 (final_obs cs evs) = false ->
+  c12_side cs evs = true -> c12_noforeign cs evs = true ->
+  holds_C12 ord cs evs = true.
+Proof.
+  intros cs ord evs s Hacc HW Hside Hfor. unfold holds_C12, holds.
+  rewrite (combine ord cs evs (obs0 cs) [] 0); [reflexivity| |exact Hfor].
+  eapply C12_workers_thm; eauto.
+Qed.
+
+(* the liveness-free half: a worker passes ordered_go for i only when every dependent of i in the shutdown's
+   snapshot has completed (l_done = waitForCompletion returns) *)
+Lemma accept_app s l1 l2 : accept s (l1 ++ l2) = match accept s l1 with Some s1 => accept s1 l2 | None => None end.
+Proof.
+  revert s. induction l1 as [|e l1 IH]; intros s; cbn; [reflexivity|]. destruct (step s e); [apply IH|reflexivity].
+Qed.
+
+Theorem C12_worker_waits_thm : forall cs ord evs th i s2,
+  accept (init cs ord) (evs ++ [(th, EOrderedGo i)]) = Some s2 ->
+  exists sdth order x, sd_active s2 = Some (sdth, order) /\ In i order /\ get i (insts s2) = Some x /\
+    forall j y, In j order -> get j (insts s2) = Some y -> In (nm x) (map fst (deps (cf y))) -> l_done y = true.
+Proof.
+  intros cs ord evs th i s2 H. rewrite accept_app in H. destruct (accept (init cs ord) evs) as [s1|]; [|discriminate].
+  cbn [accept] in H. destruct (step s1 (th, EOrderedGo i)) as [s3|] eqn:Es; [|discriminate]. injection H as ->.
+  unfold step in Es. cbn [fst snd] in Es. set (s0 := flush th s1) in *. cbn in Es. unfold step_ordered_go in Es.
+  break_step Es. subst s2. split_andb. cbn [sd_active insts set_thread].
+  unfold dependents_done in *. destruct (get i (insts s0)) as [x|] eqn:Hx; [|discriminate].
+  exists t, l, x. split; [assumption|]. split; [now apply memN_In|]. split; [exact Hx|].
+  intros j y Hj Hy Hin. change (get j (insts s0) = Some y) in Hy. match goal with Hd : forallb _ _ = true |- _ => rewrite forallb_forall in Hd; specialize (Hd j Hj) end.
+  rewrite Hy in *. apply (proj2 (memN_In _ _)) in Hin. now rewrite Hin in *.
+Qed.
+
+(* position-quantified reading of a monitor that holds *)
+Lemma mon_run_all cs (m : obs -> tid * event -> bool) : forall evs o k, mon_run cs m o evs k = None ->
+  forall pre e post, evs = pre ++ e :: post -> m (fold_left (obs_step cs) pre o) e = true.
+Proof.
+  induction evs as [|a evs IH]; intros o k H pre e post Heq.
+  - destruct pre; discriminate.
+  - cbn in H. destruct (m o a) eqn:Em; [|discriminate]. destruct pre as [|b pre]; cbn in Heq.
+    + injection Heq as -> _. exact Em.
+    + injection Heq as -> Heq. cbn. eapply IH; eauto.
+Qed.
+
+Theorem C12_declarative_thm : forall cs evs, holds_C12 true cs evs = true ->
+  forall pre th i sig ponly post, evs = pre ++ (th, ESignal i sig ponly) :: post ->
+  let o := final_obs cs pre in
+  forall sdth snap j, In (sdth, snap) (o_sd_cur o) -> In i snap -> In j snap ->
+    In (o_nm (oi_get o i)) (map fst (deps (conf_of cs (o_nm (oi_get o j))))) ->
+    o_alive (oi_get o j) = false.
+Proof.
+  intros cs evs Hh pre th i sig ponly post Heq o sdth snap j Hsnap Hi Hj Hdep.
+  unfold holds_C12, holds in Hh. destruct (mon_run cs (mon_C12 true cs) (obs0 cs) evs 0) eqn:Hm; [discriminate|].
+  pose proof (mon_run_all cs _ evs _ _ Hm pre _ post Heq) as Hc. fold (final_obs cs pre) in Hc. fold o in Hc.
+  unfold mon_C12 in Hc. cbn [snd negb] in Hc. rewrite forallb_forall in Hc. specialize (Hc _ Hsnap). cbn [snd] in Hc.
+  apply (proj2 (memN_In _ _)) in Hi. rewrite Hi in Hc. rewrite forallb_forall in Hc. specialize (Hc j Hj).
+  apply (proj2 (memN_In _ _)) in Hdep. rewrite Hdep in Hc. cbn in Hc. now apply negb_true_iff in Hc.
+Qed.
